@@ -83,6 +83,13 @@ def cases(rng, tier):
     # shapes in which a read session can reach its own archive or depend on which worker is first
     for i in range(12 if tier == "quick" else 120):
         out.append({"kind": "special", "shape": ["self-overwrite", "multi-damage", "same-output-path", "write-in-read-mode"][i % 4], "variant": i // 4, "seed": rng.getrandbits(32)})
+    # third hunt: the archive reached through a link an earlier member made; the memory the machine reports; one directory twice
+    for i in range(6 if tier == "quick" else 24):
+        out.append({"kind": "special", "shape": "self-overwrite-via-link", "variant": i, "seed": rng.getrandbits(32)})
+    for i in range(4 if tier == "quick" else 24):
+        out.append({"kind": "special", "shape": "memory-short", "variant": i, "seed": rng.getrandbits(32)})
+    for i in range(2 if tier == "quick" else 6):
+        out.append({"kind": "special", "shape": "extract-twice-same-dir", "variant": i, "seed": rng.getrandbits(32)})
     return out
 
 
@@ -246,6 +253,135 @@ def _run_special(case):
             if want is None or set(got) != {want}:
                 viol.append({"key": "verdict-not-repeatable/testzip/multi-damage", "what": "%d folders, each damaged: testzip() from a stream names %r; by path, 80 calls: %r" % (nf, want, got)})
             cell = "special|multi-damage|f%d" % nf
+        elif shape == "self-overwrite-via-link":
+            # the archive lies below the destination; a link made by an earlier member leads a later member onto it (third hunt)
+            sub, aname = ["sub", "deep/er"][var % 2], "a.7z"
+            kind = ["file", "symlink", "emptyfile"][(var // 2) % 3]
+            mem = [{"name": "lnk", "kind": "symlink", "data": sub.encode(), "attributes": 0x20 | 0x400 | 0x8000 | (0o120777 << 16), "mtime": 132000000000000000}]
+            if kind == "file":
+                mem.append(fmem("lnk/" + aname, b"PAYLOAD-OF-THE-MEMBER" * 3, 1))
+            elif kind == "symlink":
+                mem.append({"name": "lnk/" + aname, "kind": "symlink", "data": b"nowhere", "attributes": 0x20 | 0x400 | 0x8000 | (0o120777 << 16), "mtime": 132000000000000001})
+            else:
+                mem.append({"name": "lnk/" + aname, "kind": "emptyfile", "attributes": 0x20 | 0x8000 | (0o100644 << 16), "mtime": 132000000000000001})
+            nstream = sum(1 for m in mem if m["kind"] in ("file", "symlink"))
+            data = W.build(mem, {"folders": [{"n": nstream, "chain": [{"m": "COPY"}], "crc": "sub"}], "header": "raw"})
+            h0 = hashlib.sha256(data).hexdigest()
+            for how in ("path", "fileobj"):
+                out = os.path.join(d, "out-" + how)
+                os.makedirs(os.path.join(out, sub))
+                path = os.path.join(out, sub, aname)
+                with open(path, "wb") as f:
+                    f.write(data)
+                fobj = None
+                try:
+                    src = path if how == "path" else open(path, "rb")
+                    fobj = None if how == "path" else src
+                    with py7zr.SevenZipFile(src, "r") as z:
+                        z.extractall(path=out)
+                    outcome = "completed"
+                except Exception as e:
+                    outcome = "raised " + type(e).__name__
+                finally:
+                    if fobj is not None:
+                        fobj.close()
+                obs["file_hash_checks"] += 1
+                obs["sessions"] += 1
+                now = None if not os.path.isfile(path) or os.path.islink(path) else hashlib.sha256(open(path, "rb").read()).hexdigest()
+                if now != h0:
+                    what = "is gone or no longer a regular file" if now is None else "has other contents (%d bytes)" % os.path.getsize(path)
+                    viol.append({"key": "archive-modified/self-overwrite-via-link/%s" % kind, "what": "archive at <out>/%s/%s with members 'lnk' -> %r and a %s member 'lnk/%s', opened by %s, extractall(<out>) (%s): the archive %s" % (
+                        sub, aname, sub, kind, aname, how, outcome, what)})
+            cell = "special|self-overwrite-via-link|%s" % kind
+        elif shape == "memory-short":
+            # the extraction chunk is derived from the memory the machine reports: whatever it reports, verdicts and contents are those of a fresh session
+            from py7zr import properties as P
+
+            mem = [fmem("a.txt", b"first member " * 10, 0), fmem("b.txt", r.randbytes(140), 1), fmem("c.txt", b"third" * 999, 2)]
+            chain = [[{"m": "LZMA2"}], [{"m": "COPY"}], [{"m": "BZip2"}]][var % 3]
+            data = W.build(mem, {"folders": [{"n": 3, "chain": chain, "crc": "sub"}], "header": "lzma+crc"})
+            path = os.path.join(d, "solid.7z")
+            with open(path, "wb") as f:
+                f.write(data)
+            want = {m["name"]: pz.crc(m["data"]) for m in mem}
+
+            class Short:
+                avail = [200_000_000, 256_000_000, 100_000_000, 256_000_003][var % 4]
+
+                @staticmethod
+                def virtual_memory():
+                    class VM:
+                        available = Short.avail
+
+                    return VM
+
+            o_ps = P._psutil
+            if o_ps is not None and P._resource is not None:
+                P._psutil = Short
+                try:
+                    obs["memory_limit_reported"] = P.get_memory_limit()
+                    for how in ("path", "stream"):
+                        try:
+                            with py7zr.SevenZipFile(path if how == "path" else io.BytesIO(data), "r") as z:
+                                tz = z.testzip()
+                                z.reset()
+                                fac = pz.CollectFactory()
+                                z.extractall(factory=fac)
+                                t2 = z.test()
+                            got = {n: pz.crc(b) for n, b in fac.as_dict().items()}
+                            if tz is not None or t2 is False:
+                                viol.append({"key": "verdict-wrong-on-intact/memory-short", "what": "psutil reports %d bytes available (chunk %r): testzip() -> %r, test() -> %r on an intact solid archive (%s)" % (
+                                    Short.avail, obs["memory_limit_reported"], tz, t2, how)})
+                            if got != want:
+                                viol.append({"key": "extractall-differs-from-fresh/memory-short", "what": "psutil reports %d bytes available: extractall delivers %r" % (Short.avail, {k: len(v) for k, v in fac.as_dict().items()})})
+                        except Exception as e:
+                            viol.append({"key": "intact-archive-raises/memory-short/%s" % type(e).__name__, "what": "psutil reports %d bytes available (chunk %r): %s session on an intact solid archive raised %s" % (
+                                Short.avail, obs["memory_limit_reported"], how, pz.exc_sig(e))})
+                        obs["sessions"] += 1
+                        obs["calls_compared_with_fresh"] += 3
+                finally:
+                    P._psutil = o_ps
+            cell = "special|memory-short|%d" % (var % 4)
+        elif shape == "extract-twice-same-dir":
+            # the same directory twice in one session: multi-volume source; a link member whose target does not exist
+            import multivolumefile
+
+            mem = [{"name": "lnk", "kind": "symlink", "data": b"later/target.txt", "attributes": 0x20 | 0x400 | 0x8000 | (0o120777 << 16), "mtime": 132000000000000000}, fmem("a.txt", b"aaa" * 50, 1)]
+            if var % 2:
+                mem = [fmem("a.txt", b"aaa" * 50, 1), fmem("d/b.txt", b"bbb" * 50, 2)]
+            data = W.build(mem, {"folders": [{"n": 2, "chain": [{"m": "COPY"}], "crc": "sub"}], "header": "raw"})
+            vols = os.path.join(d, "v.7z")
+            step = max(40, len(data) // 3 + 1)
+            for i in range(0, len(data), step):
+                with open("%s.%04d" % (vols, i // step + 1), "wb") as f:
+                    f.write(data[i : i + step])
+            with open(os.path.join(d, "plain.7z"), "wb") as f:
+                f.write(data)
+            for how in ("path", "stream", "multivolume"):
+                out = os.path.join(d, "out-" + how)
+                res = []
+                mv = None
+                try:
+                    if how == "multivolume":
+                        mv = multivolumefile.open(vols, "rb")
+                    src = os.path.join(d, "plain.7z") if how == "path" else (io.BytesIO(data) if how == "stream" else mv)
+                    with py7zr.SevenZipFile(src, "r") as z:
+                        for k in range(2):
+                            try:
+                                z.extractall(out)
+                                res.append(json_key({p_: (r_["kind"], r_.get("target"), pz.crc(r_["data"]) if r_.get("data") is not None else None) for p_, r_ in pz.walk_tree(out).items()}))
+                            except Exception as e:
+                                res.append("raised " + pz.exc_sig(e)[:80])
+                            z.reset()
+                finally:
+                    if mv is not None:
+                        mv.close()
+                obs["sessions"] += 1
+                obs["calls_compared_with_fresh"] += 2
+                if len(res) != 2 or res[0] != res[1]:
+                    viol.append({"key": "extractall-not-repeatable/same-directory/%s" % ("dangling-link" if not var % 2 else how), "what": "%s source, members %r: extractall(p), reset(), extractall(p): first %s, second %s" % (
+                        how, [m["name"] for m in mem], res[0][:100] if res else None, res[1][:100] if len(res) > 1 else None)})
+            cell = "special|extract-twice-same-dir|%d" % (var % 2)
         elif shape == "same-output-path":
             # two members in different folders whose names are different spellings of one output path
             big = r.randbytes(2_500_000)
